@@ -43,6 +43,7 @@ type spec struct {
 	Burst    *burstSpec `json:"burst,omitempty"` // kind = burst
 	Sia      *siaSpec   `json:"sia,omitempty"`   // kind = sia
 	Rem      *remSpec   `json:"rem,omitempty"`   // kind = rem
+	Stat     *statSpec  `json:"stat,omitempty"`  // kind = stat
 }
 
 func (s spec) replayArg() string {
@@ -561,6 +562,7 @@ type tally struct {
 	overlapPairs, reordered, concCases, noLinearisation                                   int
 	burstRounds, burstCalls, burstAnomalies                                               int
 	heldSlices, remRounds, remAnomalies                                                   int
+	statRounds, statReads, statAnomalies                                                  int
 	siaRounds, siaAnomalies                                                               int
 }
 
@@ -654,6 +656,16 @@ func emitSpec(e *vh.Env, s spec, unresolved *int) {
 		stat.ops += len(steps)
 		stat.shardHist[fmt.Sprintf("shards=%d", s.N)]++
 		e.Emit(wideCase(s, steps))
+	case "stat":
+		n := s.Attempts
+		if n == 0 {
+			n = 1
+		}
+		for i := 0; i < n; i++ {
+			c := statCase(*s.Stat)
+			c.Replay = spec{Kind: "stat", Stat: s.Stat}.replayArg()
+			e.Emit(c)
+		}
 	case "rem":
 		n := s.Attempts
 		if n == 0 {
@@ -752,7 +764,7 @@ func main() {
 			if s.Kind == "conc" {
 				s.Attempts = 20
 			}
-			if s.Kind == "burst" || s.Kind == "sia" || s.Kind == "rem" {
+			if s.Kind == "burst" || s.Kind == "sia" || s.Kind == "rem" || s.Kind == "stat" {
 				s.Attempts = 40 // the schedule is the runtime's: repeat the same programs
 			}
 			emitSpec(e, s, &unresolved)
@@ -824,7 +836,7 @@ func main() {
 			}
 		}
 		// SetIfAbsent-only bursts: the first insert wins
-		nSia := e.Scale(24, 400)
+		nSia := e.Scale(32, 400)
 		for _, v := range []string{"std", "tiny"} {
 			for i, m := 0, boost("sia/"+v, nSia); i < m; i++ {
 				b := genSia(e.Rnd, v)
@@ -839,6 +851,17 @@ func main() {
 				emitSpec(e, spec{Kind: "rem", Rem: &b}, &unresolved)
 			}
 		}
+		// Stats() read concurrently with writers
+		nStat := e.Scale(12, 200)
+		for _, v := range []string{"std", "tiny"} {
+			for i, m := 0, boost("stats/"+v, nStat); i < m; i++ {
+				b := genStat(e.Rnd, v)
+				emitSpec(e, spec{Kind: "stat", Stat: &b}, &unresolved)
+			}
+		}
+		e.Meta["stats_rounds"] = stat.statRounds
+		e.Meta["stats_answers_kept"] = stat.statReads
+		e.Meta["stats_rounds_with_anomaly_seen_by_harness_advisory"] = stat.statAnomalies
 		e.Meta["rem_rounds"] = stat.remRounds
 		e.Meta["rem_rounds_with_anomaly_seen_by_harness_advisory"] = stat.remAnomalies
 		e.Meta["seq_slices_kept_by_the_caller_and_reread"] = stat.heldSlices
